@@ -54,6 +54,10 @@ def tname(t: Any) -> str:
 
 
 # =============================================================================== harness
+class _Ballast:
+    pass
+
+
 class _Junk:
     pass
 
@@ -167,49 +171,83 @@ class H:
                     # going away must not take anybody else's subscription with it
                     early_cm = ctx.resource_added.stream_events()
                     await early_cm.__aenter__()
-                stream = await lstack.enter_async_context(ctx.resource_added.stream_events(max_queue_size=100000))
+                late = b.get("late_listener")
+                box: dict[str, Any] = {}
+                stream: Any = None
+                if late is None:
+                    stream = await lstack.enter_async_context(ctx.resource_added.stream_events(max_queue_size=100000))
+                else:
+                    # nobody listens when the block starts; the (only) listener subscribes
+                    # some time into it and is owed everything published from then on
+                    sim.log("listen_late", ctx=cid)
+
+                async def late_listen() -> None:
+                    await sim.pause(late[0], late[1])
+                    cm = ctx.resource_added.stream_events(max_queue_size=100000)
+                    box["stream"] = await cm.__aenter__()
+                    lstack.push_async_exit(cm)
+                    sim.log("listen_begin", ctx=cid)
+
+                async def run_body() -> None:
+                    nonlocal early_cm
+                    body = b.get("body", ())
+                    if early_cm is not None:
+                        k = min(b["early_leaver"], len(body))
+                        await self.acts(body[:k], cid)
+                        cm, early_cm = early_cm, None
+                        await cm.__aexit__(None, None, None)
+                        await self.acts(body[k:], cid)
+                    else:
+                        await self.acts(body, cid)
+
                 try:
                     async with ctx:
                         sim.log("ctx_enter", ctx=cid)
-                        body = b.get("body", ())
-                        if early_cm is not None:
-                            k = min(b["early_leaver"], len(body))
-                            await self.acts(body[:k], cid)
-                            cm, early_cm = early_cm, None
-                            await cm.__aexit__(None, None, None)
-                            await self.acts(body[k:], cid)
+                        for i in range(b.get("ballast", 0)):
+                            # scale knob: the context carries dozens of unrelated resources
+                            ctx.add_resource(_Ballast(), f"zb{cid}_{i}")
+                        if late is not None:
+                            async with create_task_group() as ltg:
+                                ltg.start_soon(late_listen, name=f"w:late_listener_{cid}")
+                                await run_body()
+                                ltg.cancel_scope.cancel()
                         else:
-                            await self.acts(body, cid)
+                            await run_body()
                         sim.log("body_end", ctx=cid)
                 finally:
                     if early_cm is not None:
                         with anyio.CancelScope(shield=True):
                             await early_cm.__aexit__(None, None, None)
-                    try:
-                        ctx.resource_added.dispatch(ResourceEvent((), SENTINEL, None, False))
-                        got_sentinel = False
-                        # everything dispatched so far is already queued, so this never
-                        # really waits - unless delivery to this listener is broken
-                        with anyio.move_on_after(5.0, shield=True):
-                            async for ev in stream:
-                                if ev.resource_name == SENTINEL:
-                                    got_sentinel = True
-                                    break
-                                sim.log(
-                                    "event",
-                                    ctx=cid,
-                                    types=[tname(t) for t in ev.resource_types],
-                                    name=ev.resource_name,
-                                    desc=ev.resource_description,
-                                    is_factory=ev.is_factory,
-                                    source=self.cid(ev.source),
-                                    topic=ev.topic,
-                                )
-                        if not got_sentinel:
-                            sim.log("note", what="drain_failed", exc="the listener never received the end marker dispatched on its own context")
-                    except BaseException as e:  # noqa: BLE001
-                        sim.log("note", what="drain_failed", exc=f"{type(e).__name__}: {e}")
-                        raise
+                    if late is not None:
+                        stream = box.get("stream")
+                    if stream is not None:
+                        try:
+                            ctx.resource_added.dispatch(ResourceEvent((), SENTINEL, None, False))
+                            got_sentinel = False
+                            # everything dispatched so far is already queued, so this never
+                            # really waits - unless delivery to this listener is broken
+                            with anyio.move_on_after(5.0, shield=True):
+                                async for ev in stream:
+                                    if ev.resource_name == SENTINEL:
+                                        got_sentinel = True
+                                        break
+                                    if ev.resource_name.startswith("zb"):
+                                        continue  # ballast, not part of the workload
+                                    sim.log(
+                                        "event",
+                                        ctx=cid,
+                                        types=[tname(t) for t in ev.resource_types],
+                                        name=ev.resource_name,
+                                        desc=ev.resource_description,
+                                        is_factory=ev.is_factory,
+                                        source=self.cid(ev.source),
+                                        topic=ev.topic,
+                                    )
+                            if not got_sentinel:
+                                sim.log("note", what="drain_failed", exc="the listener never received the end marker dispatched on its own context")
+                        except BaseException as e:  # noqa: BLE001
+                            sim.log("note", what="drain_failed", exc=f"{type(e).__name__}: {e}")
+                            raise
         except BaseException as e:
             sim.log("ctx_exit", ctx=cid, exc=f"{type(e).__name__}")
             self.observe()
@@ -739,6 +777,7 @@ def oracle(sim: Sim, plan: dict) -> list[dict]:
     handed: dict[tuple, Any] = {}  # (ctx, type, name) -> first value a lookup returned
     task_fac: dict[str, list] = {}  # task -> stack of (fid, ctx, lid)
     obs_events: dict[str, list] = {}
+    late_from: dict[str, Any] = {}
     td_runs: dict[str, list] = {}
     td_stack: dict[str, list] = {}
     td_popped: dict[str, set] = {}
@@ -1068,6 +1107,11 @@ def oracle(sim: Sim, plan: dict) -> list[dict]:
                 v("C19.forward_ref", "retry", f"@inject with a forward reference that became resolvable only after a failed first call ({d['first']}): second call gave {d['second']} (same object: {d['same']})")
         elif kind == "event":
             obs_events.setdefault(d["ctx"], []).append(d)
+        elif kind == "listen_late":
+            late_from[d["ctx"]] = None
+        elif kind == "listen_begin":
+            if d["ctx"] in M:
+                late_from[d["ctx"]] = len(M[d["ctx"]].events)
         elif kind == "td_run":
             td_runs.setdefault(d["ctx"], []).append(d["td"])
             m = M.get(d["ctx"])
@@ -1099,13 +1143,21 @@ def oracle(sim: Sim, plan: dict) -> list[dict]:
             {"types": e["types"], "name": e["name"], "desc": e["desc"], "is_factory": e["is_factory"]}
             for e in obs_events.get(cid, [])
         ]
-        if got != m.events:
+        want = m.events
+        if cid in late_from:
+            # (None: the block ended before its only listener had subscribed)
+            # a listener that subscribed in the middle of the block: everything published
+            # from then on - including a generation that was under way at that moment
+            want = m.events[late_from[cid] :] if late_from[cid] is not None else got
+        if got != want:
             key = "sequence"
-            if len(got) > len(m.events):
+            if len(got) > len(want):
                 key = "extra"
-            elif len(got) < len(m.events):
+            elif len(got) < len(want):
                 key = "missing"
-            v("C18.events", key, f"context {cid}: events {got} != expected {m.events}")
+            if cid in late_from:
+                key += "@late_listener"
+            v("C18.events", key, f"context {cid}: events {got} != expected {want}")
         for e in obs_events.get(cid, []):
             if e["source"] != cid or e["topic"] != "resource_added":
                 v("C18.events", "source", f"event on {cid} has source {e['source']} topic {e['topic']}")
@@ -1329,6 +1381,9 @@ class G:
             b["noisy_listener"] = rng.choice((1, 2))
         if rng.random() < 0.15:
             b["early_leaver"] = rng.randint(0, 3)
+        late = "noisy_listener" not in b and "early_leaver" not in b and rng.random() < (0.06 if self.prop == "C18" else 0.01)
+        if rng.random() < (0.1 if not lineage else 0.02):
+            b["ballast"] = rng.choice((31, 32, 33, 40, 64))
         if len(lineage) >= 2 and rng.random() < 0.15:
             b["parent"] = "ancestor"
             b["parent_id"] = rng.choice(lineage[:-1])
@@ -1339,6 +1394,12 @@ class G:
                 if a[0] != "p":
                     a[1].pop("target", None)
         b["body"] = self.body(lineage + [cid], depth, n)
+        if late:
+            # its only listener subscribes while a generation is (often) under way
+            b["late_listener"] = [rng.choice((0, 1)), rng.choice((0.25, 0.25, 0.5))]
+            self.nfac += 1
+            f = {"fid": f"f{self.nfac}", "types": self.types(0.3), "name": rng.choice(self.names), "kind": "async", "ticks": rng.choice((1, 2)), "dur": rng.choice((0.5, 1.0))}
+            b["body"][0:0] = [["fac", f], ["get", {"type": f["types"][0], "name": f["name"], "api": rng.choice(("get", "mod_get"))}]]
         return b
 
 
